@@ -2320,7 +2320,13 @@ func builtinARef(env *LEnv, args *LVal) *LVal {
 	}
 	v := array.ArrayIndex(indices...)
 	if v.Type == LError {
-		return env.Error(v)
+		// Raise the index error itself, with this call's stack.  Wrapping it
+		// with env.Error(v) made the error VALUE the data of a second error,
+		// and a handler is called with the error's data as arguments: the
+		// error-typed argument ended the handler call before it began, so no
+		// handler-bind clause could catch a bad index.
+		v.SetCallStack(env.Runtime.Stack)
+		return v
 	}
 	return v
 }
